@@ -350,6 +350,9 @@ func presenceRule(c *Ctx, fnName string, rows []presRow) int {
 			return
 		}
 		k := s.key(b)
+		if len(trail) >= 1 {
+			k += fmt.Sprintf("|from%d", trail[len(trail)-1].Index)
+		}
 		if seen[k] && onPath[b] == 0 {
 			return
 		}
@@ -430,7 +433,16 @@ func presenceRule(c *Ctx, fnName string, rows []presRow) int {
 				atReturn(s, x)
 				return
 			case *ssa.If:
-				f, pol, isFlag := flagOf(x.Cond)
+				// `a || b` outside an if-condition is a phi of a constant and b: resolve it for the edge taken
+				var prev *ssa.BasicBlock
+				if len(trail) >= 2 {
+					prev = trail[len(trail)-2]
+				}
+				rc, constKnown, constVal := condVia(x.Cond, prev)
+				f, pol, isFlag := flagOf(rc)
+				if constKnown {
+					isFlag = false
+				}
 				if isFlag {
 					flagTested[f] = true
 				}
@@ -449,6 +461,9 @@ func presenceRule(c *Ctx, fnName string, rows []presRow) int {
 				}
 				for i, succ := range b.Succs {
 					taken := i == 0
+					if constKnown && taken != constVal {
+						continue
+					}
 					ns := s.clone()
 					if isFlag {
 						want := triFalse
